@@ -15,16 +15,17 @@ NAMES = ["CLEAN", "PAT", "RAW", "ARITH"]
 
 class PV:
     """level + provenance (where ARITH was created) + optional pointwise form + refinements"""
-    __slots__ = ("lvl", "prov", "pw", "half", "ref", "const")
+    __slots__ = ("lvl", "prov", "pw", "half", "ref", "const", "vs")
 
-    def __init__(self, lvl=CLEAN, prov=frozenset(), pw=None, half=None, ref=frozenset(), const=None):
+    def __init__(self, lvl=CLEAN, prov=frozenset(), pw=None, half=None, ref=frozenset(), const=None, vs=False):
         self.lvl, self.prov, self.pw, self.half, self.ref, self.const = lvl, prov, pw, half, ref, const
+        self.vs = vs          # the *shape / length* of the value depends on weight values (np.where, masks, filters)
 
     def __repr__(self):
         return NAMES[self.lvl] + ("~pw" if self.pw is not None else "")
 
     def key(self):
-        return (self.lvl, self.prov, self.pw, self.half, self.ref, repr(self.const))
+        return (self.lvl, self.prov, self.pw, self.half, self.ref, repr(self.const), self.vs)
 
 
 NOCONST = object()
@@ -64,11 +65,21 @@ def prov_of(v):
     return frozenset()
 
 
+def vs_of(v):
+    if isinstance(v, PV):
+        return v.vs
+    if isinstance(v, TupleV):
+        return any(vs_of(x) for x in v.items)
+    if isinstance(v, ObjV):
+        return any(vs_of(x) for x in v.attrs.values())
+    return False
+
+
 def flat(v):
     """collapse any value to a PV"""
     if isinstance(v, PV):
         return v
-    return PV(lvl_of(v), prov_of(v))
+    return PV(lvl_of(v), prov_of(v), vs=vs_of(v))
 
 
 class Pattern(Interp):
@@ -96,12 +107,12 @@ class Pattern(Interp):
             return PV()
         l = max(v.lvl for v in vs)
         p = frozenset().union(*[v.prov for v in vs])
-        return PV(l, p)
+        return PV(l, p, vs=any(v.vs for v in vs))
 
     def arith(self, n, ctx, *vs):
         p = frozenset().union(*[prov_of(v) for v in vs])
         if p and any(lvl_of(v) == ARITH for v in vs):
-            return PV(ARITH, p)            # already tainted: keep the root expression(s) only
+            return PV(ARITH, p, vs=any(vs_of(v) for v in vs))            # already tainted: keep the root expression(s) only
         site = (ctx.qname, getattr(n, "lineno", 0), norm(n)[:160], ctx.func.module.relpath if ctx.func else "?")
         return PV(ARITH, p | {site})
 
@@ -201,7 +212,9 @@ class Pattern(Interp):
             return self.jn(*base.items, self.cap(idx))
         b = flat(base) if not isinstance(base, PV) else base
         i = flat(idx)
-        res = PV(max(b.lvl, min(i.lvl, PAT)) if b.lvl < ARITH else ARITH, b.prov | i.prov)
+        res = PV(max(b.lvl, min(i.lvl, PAT)) if b.lvl < ARITH else ARITH, b.prov | i.prov, vs=b.vs or i.lvl == ARITH)
+        if i.lvl == ARITH:
+            res = PV(ARITH, b.prov | i.prov, vs=True)
         # principal sub-matrix idiom  X[S, :][:, S]  keeps the (a, b) pair structure
         if isinstance(idx, TupleV) and len(idx.items) == 2 and isinstance(n.slice, ast.Tuple):
             r, c = idx.items
@@ -324,8 +337,11 @@ class Pattern(Interp):
     def _comp(self, n, env, ctx, kind):
         # the result also depends on what is iterated (its length / membership)
         r = super()._comp(n, env, ctx, kind)
-        dep = self.cap(flat(self.ev(n.generators[0].iter, env, ctx)))
-        return self.jn(r, dep)
+        it = flat(self.ev(n.generators[0].iter, env, ctx))
+        dep = self.cap(it)
+        out = self.jn(r, dep)
+        out.vs = out.vs or it.vs
+        return out
 
     def h_fstring(self, vals, n, ctx):
         return PV()
@@ -422,8 +438,11 @@ class Pattern(Interp):
     def apply(self, fv, args, kwargs, n, env, ctx):
         r = super().apply(fv, args, kwargs, n, env, ctx)
         # path refinement (DESIGN.md 3.2): where is_chain_graph(X) holds, X *is* the 0/1 chain
+        # - only when the callee really is a *value* test (its result is the exempt value comparison); a
+        # pattern-based is_chain_graph would let weighted chains through and refines nothing
         if isinstance(fv, FuncRef) and fv.func.qname in self.EXEMPT_FUNCS and isinstance(n, ast.Call) and n.args \
-                and isinstance(n.args[0], ast.Name) and isinstance(r, PV):
+                and isinstance(n.args[0], ast.Name) and isinstance(r, PV) and r.lvl == ARITH and r.prov \
+                and all(site[0] in self.EXEMPT_FUNCS for site in r.prov):
             return PV(r.lvl, r.prov, ref=frozenset({(n.args[0].id, True)}))
         return r
 
@@ -492,8 +511,12 @@ class Pattern(Interp):
                 return self.jn(self.cap(c), pos[1], pos[2])
             ts = [self.truth(flat(a), n, ctx) if lvl_of(a) == RAW else flat(a) for a in data]
             r = self.jn(*ts, *kw)
+            if d in ("numpy.where", "numpy.nonzero", "numpy.flatnonzero", "numpy.argwhere") and r.lvl == ARITH:
+                r.vs = True           # which / how many indices come out depends on the values
             return r
         if d in api.LEN_FUNCS:
+            if allv.lvl == ARITH and not allv.vs:
+                return PV(PAT)        # the length of an arithmetic result is its shape, not its values
             return PV(allv.lvl if allv.lvl == ARITH else min(allv.lvl, PAT), allv.prov)
         if d in api.CLEAN_FUNCS:
             if allv.lvl == ARITH:
@@ -503,6 +526,10 @@ class Pattern(Interp):
                 return PV()
             return PV(min(allv.lvl, PAT), allv.prov)
         if d in api.VALUE_FUNCS:
+            if d in ("numpy.unique",) and allv.lvl >= RAW:
+                r = self.arith(n, ctx, allv)
+                r.vs = True
+                return r
             if allv.lvl >= RAW:
                 if d in ("int", "float") and allv.lvl == RAW and False:
                     return allv
